@@ -259,3 +259,46 @@ Theorem C15_consistent_at_median :
 Proof. exact elem_consistent_at_median. Qed.
 Print Assumptions C15_consistent_at_median.
 
+(* ---- the SAME source, regenerated on every run by translate/gen_f.py as a function over PRIMITIVE BINARY64 floats (coq/gen/Gen_*_f.v): what numpy computes, one rounding per operation in source order; compared bit for bit with the implementation on arbitrary doubles (harness/run_genfloat.py).  Print Assumptions lists Coq's primitive float / integer operations only. ---- *)
+From Coq Require Import PrimFloat Bool.
+From MD Require Import lib.NumpyF gen.Gen_ident_f gen.Gen_scoring_f proofs.GenFloatProps.
+Open Scope float_scope.
+
+Theorem C15_float_elem_mean :
+  forall eta level y z : float,
+       gen_elem_spo_f eta Fmean level y z = FVal ((le_ind_f eta z - le_ind_f eta y) * (eta - y)).
+Proof. exact gen_elem_spo_f_mean. Qed.
+Print Assumptions C15_float_elem_mean.
+
+Theorem C15_float_elem_median_is_quantile_half :
+  forall eta level y z : float,
+       gen_elem_spo_f eta Fmedian level y z = gen_elem_spo_f eta Fquantile 0.5 y z.
+Proof. exact gen_elem_spo_f_median_is_quantile_half. Qed.
+Print Assumptions C15_float_elem_median_is_quantile_half.
+
+Theorem C15_float_elem_quantile :
+  forall eta level y z : float,
+       level_out level = false ->
+       gen_elem_spo_f eta Fquantile level y z =
+       FVal ((lt_ind_f eta z - lt_ind_f eta y) * (ge_ind_f eta y - level)).
+Proof. exact gen_elem_spo_f_quantile. Qed.
+Print Assumptions C15_float_elem_quantile.
+
+Theorem C15_float_elem_expectile :
+  forall eta level y z : float,
+       level_out level = false ->
+       gen_elem_spo_f eta Fexpectile level y z =
+       FVal ((le_ind_f eta z - le_ind_f eta y) * (2 * np_abs_f (ge_ind_f eta y - level) * (eta - y))).
+Proof. exact gen_elem_spo_f_expectile. Qed.
+Print Assumptions C15_float_elem_expectile.
+
+Theorem C15_float_elem_total :
+  forall (eta : float) (f : fnl) (level y z : float),
+       f <> Fother -> level_out level = false -> is_val (gen_elem_spo_f eta f level y z) = true.
+Proof. exact gen_elem_spo_f_total. Qed.
+Print Assumptions C15_float_elem_total.
+
+Theorem C15_float_elem_never_notexpr :
+  forall (eta : float) (f : fnl) (level y z : float), gen_elem_spo_f eta f level y z <> FNotExpr.
+Proof. exact gen_elem_spo_f_never_notexpr. Qed.
+Print Assumptions C15_float_elem_never_notexpr.
